@@ -686,7 +686,22 @@ def slen(t):
     if k == z3.Z3_OP_ITE:
         c, x, y = t.children()
         return z3.If(c, slen(x), slen(y))
+    if _is_byte_char(t):
+        return z3.IntVal(1)
     return z3.Length(t)
+
+
+def _is_byte_char(t):
+    """t is str.from_code(x) with x syntactically in 0..255 (x = y mod m, 1 <= m <= 256, or a literal): a 1-character string"""
+    if _kind(t) != z3.Z3_OP_STR_FROM_CODE:
+        return False
+    x = t.children()[0]
+    if z3.is_int_value(x):
+        return 0 <= x.as_long() <= 255
+    if _kind(x) == z3.Z3_OP_MOD:
+        m = x.children()[1]
+        return z3.is_int_value(m) and 1 <= m.as_long() <= 256
+    return False
 
 
 def ssub(t, a, n):
@@ -720,7 +735,14 @@ def sat(t, i):
 
 
 def scode(t, i):
-    return z3.StrToCode(sat(t, i))
+    c = sat(t, i)
+    if _kind(c) == z3.Z3_OP_SEQ_EXTRACT:
+        base, a, n = c.children()
+        if _is_byte_char(base) and z3.is_int_value(simp(a)) and simp(a).as_long() == 0 and z3.is_int_value(simp(n)) and simp(n).as_long() == 1:
+            return base.children()[0]  # to_code(from_code(x)) = x for 0 <= x <= 255
+    if _is_byte_char(c):
+        return c.children()[0]
+    return z3.StrToCode(c)
 
 
 def slice_term(t, start, stop):
@@ -754,7 +776,7 @@ def isa(x, cls):
     if isinstance(x, SObj):
         return issubclass(x.cls, cls)
     if isinstance(x, SV):
-        k = {SInt: int, SBool: bool, SStr: str, SBytes: bytes, SNoneT: type(None), STuple: tuple, SList: list, SDict: dict}.get(type(x))
+        k = {SInt: int, SBool: bool, SStr: str, SBytes: bytes, SNoneT: type(None), STuple: tuple, SList: list, SDict: dict, SFloat: float}.get(type(x))
         if isinstance(x, SEnum):
             return issubclass(x.cls, cls)
         if isinstance(x, SConst):
